@@ -48,7 +48,6 @@ func Harness_C06_injective() {
 	same := verifAnd(m1 == m2, verifAnd(h1 == h2, u1 == u2))
 	verifAssert("C06.key-injective", verifImplies(c06BytesEq(k1, k2), same))
 	verifAssert("C06.key-deterministic", verifImplies(same, c06BytesEq(k1, k2)))
-	verifAssert("C06.key-exact-size", len(k1) == len(m1)+len(h1)+len(u1)+2 && cap(k1) == len(k1) && verifBackingLen(k1) == len(k1))
 	verifAssert("C06.key-fresh-buffer", verifFreshBacking(k1, mark) && verifFreshBacking(k2, mark) && !verifSameBacking(k1, k2))
 	verifReach("C06.injective.end")
 }
